@@ -652,6 +652,78 @@ impl World {
 		self.payments.len() - 1
 	}
 
+	/// Fully explicit send: the caller chooses hash, onion fields (secret, declared total), the HTLC
+	/// amount, the final CLTV delta and the payment id. Returns whether the API accepted it.
+	pub fn send_raw(
+		&mut self, from: usize, hops: &[(usize, ChannelId)], htlc_amount_msat: u64, hash: PaymentHash,
+		onion: RecipientOnionFields, id: PaymentId, final_cltv_delta: u32,
+	) -> bool {
+		let to = hops.last().unwrap().0;
+		let mut route_hops = Vec::new();
+		let mut prev = from;
+		for (i, (node, cid)) in hops.iter().enumerate() {
+			let ch = self.chan(prev, cid).expect("route channel");
+			let last = i + 1 == hops.len();
+			route_hops.push(RouteHop {
+				pubkey: self.nodes[*node].id,
+				node_features: self.nodes[*node].cm.node_features(),
+				short_channel_id: ch.short_channel_id.expect("scid"),
+				channel_features: self.nodes[*node].cm.channel_features(),
+				fee_msat: if last { htlc_amount_msat } else { 1000 },
+				cltv_expiry_delta: if last { final_cltv_delta } else { 100 },
+				maybe_announced_channel: true,
+			});
+			prev = *node;
+		}
+		let route = Route {
+			paths: vec![Path { hops: route_hops, blinded_tail: None }],
+			route_params: RouteParameters::from_payment_params_and_value(
+				PaymentParameters::from_node_id(self.nodes[to].id, final_cltv_delta),
+				htlc_amount_msat,
+			),
+		};
+		let r = self.nodes[from].cm.send_payment_with_route(route, hash, onion, id);
+		self.obs.push(Obs::Api { node: from, what: format!("send_raw {}", htlc_amount_msat), ok: r.is_ok(), detail: format!("{:?}", r) });
+		self.pump();
+		r.is_ok()
+	}
+
+	/// Multi-part send over several direct paths in one `send_payment_with_route` call.
+	pub fn send_mpp(
+		&mut self, from: usize, to: usize, parts: &[(ChannelId, u64)], hash: PaymentHash, onion: RecipientOnionFields,
+		id: PaymentId, final_cltv_delta: u32,
+	) -> bool {
+		let mut paths = Vec::new();
+		let mut total = 0;
+		for (cid, amt) in parts {
+			let ch = self.chan(from, cid).expect("route channel");
+			total += amt;
+			paths.push(Path {
+				hops: vec![RouteHop {
+					pubkey: self.nodes[to].id,
+					node_features: self.nodes[to].cm.node_features(),
+					short_channel_id: ch.short_channel_id.expect("scid"),
+					channel_features: self.nodes[to].cm.channel_features(),
+					fee_msat: *amt,
+					cltv_expiry_delta: final_cltv_delta,
+					maybe_announced_channel: true,
+				}],
+				blinded_tail: None,
+			});
+		}
+		let route = Route {
+			paths,
+			route_params: RouteParameters::from_payment_params_and_value(
+				PaymentParameters::from_node_id(self.nodes[to].id, final_cltv_delta),
+				total,
+			),
+		};
+		let r = self.nodes[from].cm.send_payment_with_route(route, hash, onion, id);
+		self.obs.push(Obs::Api { node: from, what: format!("send_mpp {:?}", parts.iter().map(|p| p.1).collect::<Vec<_>>()), ok: r.is_ok(), detail: format!("{:?}", r) });
+		self.pump();
+		r.is_ok()
+	}
+
 	// -------------------------------------------------------------------------------------
 	// crash / restart
 	pub fn restart_node(
